@@ -401,6 +401,7 @@ def report(ctx, what, rep, cls, args, m, key=None):
     if key is None and m is not None and getattr(m, "solver", None) is not None:
         why = solver_disagrees(cls, args, m)
         if why:
-            key = K_HIGHS; what = what + " [HiGHS contradicts itself: " + why + "]"
-            rep = dict(rep, highs=why)
+            # the solver contradicts itself on this very instance: a failure of the solver specification every statement here is
+            # relative to (DESIGN 10.4), not of flowpaths -- counted in the evidence, not reported and not listed as a finding
+            ctx.count("solver_specification", "highs_answers_depend_on_presolve"); return
     ctx.report(what, rep, key=key)
